@@ -176,9 +176,10 @@ Theorem c14_head_rhp2_refuted :
   head_write {| wrActions := [WUpdate 0 0 64 true 7]; wrProof := true; wrSectors := 1;
                 wrPayOk := true; wrSigOk := true; wrCommitOk := true |} = Panic /\
   head_form_key true 0 = Panic /\
-  head_renewal 0 34359738368 max64' max64' = Panic.
+  head_renewal 0 34359738368 max64' max64' = Panic /\
+  head_decode_program 4611686018427387904 = Panic.
 Proof. exact (conj head_sector_roots_refuted (conj head_read_refuted (conj head_write_refuted
-         (conj head_form_key_refuted head_renewal_refuted)))). Qed.
+         (conj head_form_key_refuted (conj head_renewal_refuted head_decode_program_refuted))))). Qed.
 Print Assumptions c14_head_rhp2_refuted.
 
 (* non-vacuity: a concrete request meets the hypotheses; one program runs to completion
